@@ -34,28 +34,35 @@ Definition cell_dy (k vz : Z) (mn mx : dy) : dy :=
 (* vertical index at zoom oz of an altitude: floor(a * 2^oz / 2^25) *)
 Definition vidx_ref (a : dy) (oz : Z) : Z := floor_scaled (fst a) (snd a) (oz - 25).
 
-(* rounding slack: 2^-45 of |mn|+|mx|. The loop makes at most 35 borders, each with three roundings of relative size 2^-53 on quantities bounded
-   by |mn|+|mx|; the reverse direction makes four. A float answer inside this band of the exact one is the finding class `bit_rounding`;
-   outside the band it is a violation. *)
-Definition slack (mn mx : dy) : dy :=
-  let E := Z.min (snd mn) (snd mx) in (Z.abs (dnum mn E) + Z.abs (dnum mx E), E - 45).
+(* Rounding slack, in units of 2^-52 S with S = |mn|+|mx| (an upper bound of every quantity that is rounded).
+   Forward (calcBitIndex): one level computes d = fl(mx-mn) (error <= 2^-53 |d|, halved exactly by /2) and b = fl(d/2+mn) (error <= 2^-53 |b|);
+   |d| <= S, |b| <= max(|mn|,|mx|) <= S, so a level adds at most 1.5 * 2^-53 S < 2^-52 S, and the error of the two bounds it starts from is
+   at most averaged ((E_mx+E_mn)/2 <= max), never amplified: after `zoom` levels every float border is within zoom * 2^-52 S of the exact one.
+   The band used is (zoom+1) * 2^-52 S.
+   Reverse (convertBitToVerticalID): h = fl(fl(mx-mn)/2^vz) (error <= 2^-53 S / 2^vz, the division is exact), p = fl(k*h) with |k| <= 2^(vz+1)
+   (inherited <= 2^-52 S, own rounding <= 2^-53 * 2S), bound = fl(p+mn) (rounding <= 2^-53 * 3S): < 3 * 2^-52 S; the band used is 4 * 2^-52 S.
+   A float answer inside the band of the exact one is counted under the finding class `bit_rounding` (forward) / `bit_rounding_reverse`;
+   outside the band it is a violation. The derivation is not machine-checked; every run checks it. *)
+Definition mag_sum (mn mx : dy) : dy :=
+  let E := Z.min (snd mn) (snd mx) in (Z.abs (dnum mn E) + Z.abs (dnum mx E), E).
+Definition slack (c : Z) (mn mx : dy) : dy := let s := mag_sum mn mx in (c * fst s, snd s - 52).
 Definition idx_band (i : Z) (a mn mx : dy) (n : Z) : bool :=
-  let s := slack mn mx in
+  let s := slack (n + 1) mn mx in
   (idx_ref (dadd a (dneg s)) mn mx n <=? i) && (i <=? idx_ref (dadd a s) mn mx n).
 Definition vidx_band (i : Z) (a mn mx : dy) (oz : Z) : bool :=
-  let s := slack mn mx in
+  let s := slack 4 mn mx in
   (vidx_ref (dadd a (dneg s)) oz <=? i) && (i <=? vidx_ref (dadd a s) oz).
 
 (* the height range the property speaks about: finite, mn < mx, magnitudes far from underflow and overflow *)
 Definition range_ok (mn mx : dy) : bool :=
-  let s := slack mn mx in
-  let lg := Z.log2 (fst s) + (snd s + 45) in            (* 2^lg <= |mn|+|mx| < 2^(lg+1) *)
+  let s := mag_sum mn mx in
+  let lg := Z.log2 (fst s) + snd s in            (* 2^lg <= |mn|+|mx| < 2^(lg+1) *)
   dlt mn mx && (0 <? fst s) && (-800 <=? lg) && (lg <=? 800).
 (* reverse direction: additionally the indices must fit 64 bits with room (|altitude| * 2^10 < 2^62) and the cell number is one the
    conversion accepts (|k| <= 2^(vz+1)) *)
 Definition range_ok_rev (mn mx : dy) (vz k : Z) : bool :=
-  let s := slack mn mx in
-  range_ok mn mx && (Z.log2 (fst s) + (snd s + 45) <=? 47) && (0 <=? vz) && (vz <=? 35) && (Z.abs k <=? 2 ^ (vz + 1)).
+  let s := mag_sum mn mx in
+  range_ok mn mx && (Z.log2 (fst s) + snd s <=? 47) && (0 <=? vz) && (vz <=? 35) && (Z.abs k <=? 2 ^ (vz + 1)).
 
 (* ---- "the observed list, as a set, is exactly the run lo..hi": sort, then walk ---- *)
 Module ZOrder <: TotalLeBool.
